@@ -4,6 +4,30 @@ From Kenlm Require Import Gen.Spaces C10.ArpaModel.
 Import ListNotations.
 Local Open Scope N_scope.
 
+(* ---- the delimiter predicates are the regenerated tables ------------------------------------------------------------- *)
+Lemma codes_of_spec : forall t i b, existsb (N.eqb b) (codes_of t i) = (i <=? b) && nth (N.to_nat (b - i)) t false.
+Proof.
+  induction t as [|x r IH]; intros i b; simpl.
+  - destruct (N.to_nat (b - i)); rewrite andb_false_r; reflexivity.
+  - assert (E : existsb (N.eqb b) (codes_of r (i + 1)) = (i + 1 <=? b) && nth (N.to_nat (b - (i + 1))) r false) by apply IH.
+    destruct (N.eqb_spec b i) as [Hb|Hb].
+    + subst b. rewrite N.sub_diag. simpl. rewrite N.leb_refl. simpl.
+      destruct x; simpl; [rewrite N.eqb_refl; reflexivity|].
+      rewrite E. replace (i + 1 <=? i) with false by (symmetry; apply N.leb_gt; lia). reflexivity.
+    + destruct (N.leb_spec i b) as [L|L].
+      * assert (L1 : i + 1 <= b) by lia. replace (N.to_nat (b - i)) with (S (N.to_nat (b - (i + 1)))) by lia.
+        simpl. apply N.leb_le in L1. destruct x; simpl; rewrite ?E, ?L1; simpl; try reflexivity.
+        apply N.eqb_neq in Hb. rewrite Hb. reflexivity.
+      * simpl. destruct x; simpl; rewrite ?E; replace (i + 1 <=? b) with false by (symmetry; apply N.leb_gt; lia); simpl; try reflexivity.
+        apply N.eqb_neq in Hb. rewrite Hb. reflexivity.
+Qed.
+
+Lemma table_codes_agree : forall b, kSpaces b = nth (N.to_nat b) kSpaces_table false /\ kARPASpaces b = nth (N.to_nat b) kARPASpaces_table false.
+Proof.
+  intros b. unfold kSpaces, kARPASpaces, kSpaces_codes, kARPASpaces_codes. rewrite !codes_of_spec. rewrite N.sub_0_r.
+  replace (0 <=? b) with true by (symmetry; apply N.leb_le; lia). split; reflexivity.
+Qed.
+
 (* ---- monad plumbing --------------------------------------------------------------------------------------------- *)
 Lemma bind_ok : forall {A B} (a : res A) (f : A -> res B) y, bind a f = Ok y -> exists x, a = Ok x /\ f x = Ok y.
 Proof. intros A B [x|e] f y H; simpl in H; [eauto|discriminate]. Qed.
@@ -703,12 +727,16 @@ Proof.
       * intros r R x X. right. eapply B; eauto.
 Qed.
 
+Lemma strip_cr_prefix : forall l, exists t, l = strip_cr l ++ t.
+Proof.
+  induction l as [|c r [t IH]]; [exists []; reflexivity|]. cbn [strip_cr]. destruct r as [|d r'].
+  - destruct (c =? 13); [exists [c]|exists []]; reflexivity.
+  - exists t. rewrite IH at 1. reflexivity.
+Qed.
+
 Lemma strip_cr_in : forall l x, In x (strip_cr l) -> In x l.
 Proof.
-  intros l x X. unfold strip_cr in X. destruct (rev l) as [|y t] eqn:R; [exact X|].
-  assert (D : {y = 13} + {y <> 13}) by (apply N.eq_dec). destruct D as [D|D].
-  - subst y. apply in_rev. rewrite R. right. apply in_rev. exact X.
-  - destruct y as [|p]; [exact X|]. do 4 (destruct p as [p|p|]; try exact X). exfalso. apply D. reflexivity.
+  intros l x X. destruct (strip_cr_prefix l) as [t T]. rewrite T. apply in_or_app. left. exact X.
 Qed.
 
 (* nothing but white space is left where a section header or the end marker is expected: EndOfFileException *)
@@ -806,16 +834,6 @@ Proof.
   destruct (N.eqb_spec c 10).
   - inv H. reflexivity.
   - destruct (take_line s) as [l' a'] eqn:E. inv H. simpl. f_equal. apply IH. reflexivity.
-Qed.
-
-Lemma strip_cr_prefix : forall l, exists t, l = strip_cr l ++ t.
-Proof.
-  intros l. unfold strip_cr. destruct (rev l) as [|y t] eqn:R; [exists []; rewrite app_nil_r; reflexivity|].
-  assert (D : {y = 13} + {y <> 13}) by (apply N.eq_dec). destruct D as [D|D].
-  - subst y. exists [13]. rewrite <- (rev_involutive l), R. reflexivity.
-  - assert (X : match y with 13 => rev t | _ => l end = l).
-    { destruct y as [|p]; [reflexivity|]. do 4 (destruct p as [p|p|]; try reflexivity). exfalso. apply D. reflexivity. }
-    rewrite X. exists []. rewrite app_nil_r. reflexivity.
 Qed.
 
 (* a line that was read sits in the input, and what follows it is a suffix *)
